@@ -149,8 +149,13 @@ Section Lib.
   (* an angle is carried as the pair (x, y) handed to atan2(y, x) - unnormalised *)
   Definition ang := (T * T)%type.
   Definition mk_atan2 (y x : T) : ang := (x, y).
+  (* atan2(0, 0) = 0: the pair (0, 0) stands for the angle of (1, 0) *)
+  Definition ang_nz (a : ang) : ang :=
+    if oeqb (fst a) zero && oeqb (snd a) zero then (one, zero) else a.
   (* theta2 - theta1 : z2 * conj z1 *)
   Definition ang_sub (a2 a1 : ang) : ang :=
+    let a2 := ang_nz a2 in
+    let a1 := ang_nz a1 in
     (oadd o (omul o (fst a2) (fst a1)) (omul o (snd a2) (snd a1)),
      osub o (omul o (snd a2) (fst a1)) (omul o (fst a2) (snd a1))).
   (* sigma * theta for sigma = +-1 (the only use: sign0(..) * atan2(..)) *)
@@ -165,7 +170,7 @@ Arguments vmins {T}. Arguments vadds {T}. Arguments vsubs {T}. Arguments vscale 
 Arguments vdivs {T}. Arguments vneg {T}. Arguments vabs {T}. Arguments vsum {T}. Arguments vmaxl {T}.
 Arguments vdot {T}. Arguments vfull {T}. Arguments vset {T}. Arguments vdivs_raise {T}. Arguments pts_rank2 {T}. Arguments pts_dim {T}. Arguments vle {T}. Arguments vlt {T}. Arguments vge_any {T}.
 Arguments vhead2 {T}. Arguments vmin_axis0 {T}. Arguments vmax_axis0 {T}. Arguments blo {T}. Arguments bhi {T}.
-Arguments bdim {T}. Arguments mk_atan2 {T}. Arguments ang_sub {T}. Arguments ang_sgn {T}.
+Arguments bdim {T}. Arguments mk_atan2 {T}. Arguments ang_nz {T}. Arguments ang_sub {T}. Arguments ang_sgn {T}.
 
 (* ------------------------------------------------------------------ side effects: the event language
    The translator summarises EVERY function of the five anchored files as a list of events, in source
